@@ -6,7 +6,7 @@ import datetime as dt
 
 ID = "C15"
 BACKENDS = ("py", "rs")
-GEN_MODULES = ("Tables", "Helpers")
+GEN_MODULES = ("Tables", "Helpers", "RsHelpers")
 MIN_THEOREMS = 19
 RULE = ("ops: isleap/islong/diy for every year 1..9999; weekday/getters on dates (quick: every date of 12 pattern years, "
         "every month start/end of every year, random dates; thorough: all 3,652,059 dates); localtime on day boundaries "
@@ -16,7 +16,7 @@ RULE = ("ops: isleap/islong/diy for every year 1..9999; weekday/getters on dates
 EXHAUSTIVE = {"quick": False, "thorough": True}
 TRUSTED = [
     "Gen.Helpers/Gen.Tables are regenerated from _helpers.py, date.py, constants.py, rust/src/constants.rs each run",
-    "Model/Rs.lean and Model/LocalTime.lean are hand models of rust/src/helpers.rs and of local_time (both backends), tied by this correspondence run",
+    "Gen/RsHelpers.lean is regenerated from rust/src/helpers.rs (closed-form helpers) by tools/gen_rust.py each run; Model/LocalTime.lean is the hand model of local_time (both backends), tied by this correspondence run",
     "reference calendar Model/Cal.lean = CPython datetime algorithms; oracle = CPython datetime/calendar",
 ]
 ASSUMPTIONS = [
